@@ -111,7 +111,9 @@ theorem no_trading_no_trades (b : Book) (op : Op) (h : b.trading = false)
     | true => exact absurd rfl hop
     | false => simp [Book.step, Book.disableTrading]
   | resetVol => simp [Book.step, Book.resetTradeVol, h]
-  | reload => simp [Book.step, h]
+  | reload =>
+    simp only [Book.step]
+    split <;> simp [Book.reload, Book.load, Book.save, h]
 
 /-- Lifted over histories: as long as trading is not re-enabled the trade log never grows. -/
 theorem no_trading_run (b : Book) (ops : List Op) (h : b.trading = false)
